@@ -40,6 +40,7 @@ def run(ctx) -> None:
                probs[0][1] if probs else a.part_loop, message="aggregate: " + "; ".join(p for p, _ in probs))
     ctx.section("partition", part)
     ctx.section("keys", gr.key_columns, ctx, a, "b.key-columns")
+    ctx.section("exit", gr.single_exit, ctx, a, "b.key-columns")
     ctx.section("aggregators", gr.aggregator_table, ctx, a, "c.aggregators")
     ctx.section("flow", gr.group_value_flow, ctx, a, "d.group-values")
     ctx.section("apply", gr.apply_block, ctx, a, "d.apply")
